@@ -31,7 +31,15 @@ RULE = (
     "the real code is compared with the Lean operation lists fsprogx / fsrollup / fsclimain; the roll-up tool is "
     "run next to its own stale temporary and result files; mokapot.mokapot.main is run on 1-2 PIN files (ragged or "
     "valid) with --dest_dir, --save_models, --aggregate, --file_root, --keep_decoys, --skip_rollup in a dirty and a "
-    "clean destination and every file of both is compared"
+    "clean destination and every file of both is compared. Second pass: the observed run may pass "
+    "append_to_output_file=True (the result files found are declared inputs, planted identically in both "
+    "directories; every result file must be its earlier content followed by the rows the same call writes into a "
+    "fresh directory), may get a score array longer than its table (chunk size dividing the row count or not: the "
+    "sized Lean model fssized / fswellinitsized / fssizedfit computes the chunk counts from the lengths and must "
+    "refuse exactly the calls the real code refuses, for the same reason, and the operations of a refused call are "
+    "compared with fssizedrefused / fslistrefused), and assign_confidence(sqlite_path=...) is run next to an "
+    "interrupted text run and stale files: database rows dirty vs clean, no file of the run left, life cycle and "
+    "listing vs fssql / fslistsql"
 )
 
 
@@ -97,7 +105,25 @@ def make_run(rng, tag):
         proteins=rng.random() < 0.3,        # protein level too (its level file is one more intermediate)
         do_rollup=rng.random() >= 0.15,     # False: the PSM level only (no peptide level file)
         extra=make_extra(rng),              # further collections of the same call, each with its own prefix
+        score_extra=0,                      # entries the first collection's score array has more than its table has rows
+        append=False,                       # the caller's append_to_output_file=True (result files = declared inputs)
     )
+
+
+def make_observed(rng):
+    """the run under observation: as `make_run`, plus the options only it gets -- a score array longer than the
+    table (mostly with a chunk size dividing the row count: no length mismatch inside a written chunk, more paths
+    merged than files written) and `append_to_output_file=True`"""
+    run = make_run(rng, "obs")
+    u = rng.random()
+    if u < 0.12:
+        run["score_extra"] = rng.choice([1, 2, 3, 5, 8])
+        run["cconf_divides"] = rng.random() < 0.75
+        if run["fmt"] == "parquet" and rng.random() < 0.7:
+            run["fmt"] = "pin"          # (the hand-made stale chunk files are text)
+    elif u < 0.27:
+        run["append"] = True
+    return run
 
 
 # prefix arrangements of a call with several collections (first entry = the run's own `prefix` field)
@@ -164,10 +190,22 @@ def execute(run, dest, workroot, crash=None):
         inp = workroot / (f"in-{run['tag']}.{run['fmt']}" if j == 0 else f"in-{run['tag']}-{j}.{run['fmt']}")
         mkdata.write_table(d, inp)
         datasets.append(mkdata.read_dataset(inp))
+    scores = [d["feat0"].values.astype(float) for d in dfs]
+    if run.get("score_extra"):
+        scores[0] = np.concatenate([scores[0], 0.5 + np.arange(run["score_extra"], dtype=float)])
+    if run.get("append"):
+        kw["append_to_output_file"] = True
+    sizes = dict(chunk=run["cconf"], sizes=[(len(d), len(sc)) for d, sc in zip(dfs, scores)])
     with P.chunk_sizes(confidence=run["cconf"], merge=run["cmerge"]), P.pep_kernel(stub=True), crash_at(crash) as ctr:
         ctr["ks"] = [-(-len(d) // run["cconf"]) for d in dfs]
-        P.run_assign_confidence(datasets, [d["feat0"].values.astype(float) for d in dfs], dest, prefixes=prefixes,
-                                decoys=run["decoys"], deduplication=run["dedup"], **kw)
+        ctr.update(sizes)
+        try:
+            P.run_assign_confidence(datasets, scores, dest, prefixes=prefixes,
+                                    decoys=run["decoys"], deduplication=run["dedup"], **kw)
+        except Exception as e:
+            e.c09_sizes = sizes
+            e.c09_ops = list(ctr["ops"])
+            raise
     return ctr
 
 
@@ -177,7 +215,7 @@ def snapshot(d: Path):
 
 def gen_case(rng):
     hist = [make_run(rng, f"h{i}") for i in range(rng.choice([1, 1, 2, 3]))]
-    case = dict(history=hist, observed=make_run(rng, "obs"),
+    case = dict(history=hist, observed=make_observed(rng),
                 crash_fracs=[rng.choice([None, rng.random(), rng.random()]) for _ in hist],
                 stale=rng.random() < 0.5,
                 stale_kind=rng.choice(["junk", "level"]))   # content of the stale level files
@@ -244,7 +282,74 @@ def run_nl(run):
 def model_args(run, ks):
     ids, _ = prefix_ids(run_prefixes(run))
     ks = list(ks) or [1] * len(ids)
-    return (bool(run.get("proteins")), run_nl(run), bool(run["decoys"]), False, [[i, k] for i, k in zip(ids, ks)])
+    return (bool(run.get("proteins")), run_nl(run), bool(run["decoys"]), bool(run.get("append")),
+            [[i, k] for i, k in zip(ids, ks)])
+
+
+def sized_args(run, info):
+    """arguments of the driver ops fssized / fswellinitsized / fslistsized: the collections by their sizes (rows of
+    the table, length of the score array) and CONFIDENCE_CHUNK_SIZE -- the Lean model computes the chunk counts"""
+    ids, _ = prefix_ids(run_prefixes(run))
+    return (bool(run.get("proteins")), run_nl(run), bool(run["decoys"]), bool(run.get("append")), int(info["chunk"]),
+            [[i, int(r), int(sc)] for i, (r, sc) in zip(ids, info["sizes"])])
+
+
+def model_sized(run, info):
+    """what the sized Lean model says about this call: verdict (`ok` / `reject-valueerror` / `reject-lengths` /
+    `reject-scores` = more score chunks than table chunks, refused before the merge),
+    wellInit of its operation list, `fit` (no collection has more score chunks than table chunks), and per collection
+    (paths merged, files written)"""
+    a = sized_args(run, info)
+    r = common.driver_batch([req("fswellinitsized", *a), req("fssizedfit", a[4], a[5])])
+    w = r[0].strip()
+    fit = dec(r[1])
+    return dict(verdict=w if w.startswith("reject") else "ok", wellinit=(w == "T"), fit=(fit[0] == "T"),
+                counts=[(int(m), int(x)) for m, x in fit[1]])
+
+
+def real_verdict(err, wrote):
+    if err is None:
+        return "ok"
+    if err.startswith("ValueError") and not wrote:
+        return "reject-valueerror"
+    if err.startswith("ValueError") and "does not match length" in err:
+        return "reject-lengths"
+    if err.startswith("ValueError") and "number of scores does not match" in err:
+        return "reject-scores"
+    return "failed"
+
+
+def result_names(run):
+    names = []
+    for prefix in dict.fromkeys(run_prefixes(run)):
+        pre = f"{prefix}." if prefix else ""
+        for ln in run_levels(run):
+            names.append(f"{pre}targets.{ln}")
+            if run["decoys"]:
+                names.append(f"{pre}decoys.{ln}")
+    return names
+
+
+def declared_results(run):
+    """append_to_output_file=True: the result files found in the destination are inputs of the call (about two
+    thirds of the names exist, the others are created by the run)"""
+    out = {}
+    for i, nm in enumerate(result_names(run)):
+        if (run["data_seed"] + i) % 3:
+            out[nm] = f"EXISTING RESULTS {nm}\nrow\t{i}\n".encode()
+    return out
+
+
+def plant_declared(run, dest):
+    """make the declared inputs of an appending run the same in every directory it is run in"""
+    decl = declared_results(run)
+    for nm in result_names(run):
+        f = dest / nm
+        if nm in decl:
+            f.write_bytes(decl[nm])
+        elif f.exists():
+            f.unlink()
+    return decl
 
 
 def model_refuses(run, ks):
@@ -255,6 +360,8 @@ def model_refuses(run, ks):
 def model_predicts_dependence(run, ks):
     """does the Lean model reject the operation list of this run (`wellInit [] … = false`)?  returns a short reason,
     or None when the model says the run cannot depend on leftovers (then a violation is a surprise for the model too)"""
+    if run.get("append"):      # the result files are declared inputs: `wellInit []` is not the question asked
+        return None
     resp = common.driver_batch([req("fswellinitx", *model_args(run, ks))])[0]
     if resp.strip() != "F":
         return None
@@ -269,20 +376,83 @@ def run_case(chk, case, enumerate_all=False):
         dirty = root / "dirty"; dirty.mkdir()
         obs = case["observed"]
         clean_err = None
+        info = None                      # sizes of the observed run's collections and its chunk size
+        declared = plant_declared(obs, clean) if obs.get("append") else {}
+        clean_exc = None
         try:
-            obs_ks = execute(obs, clean, root)["ks"]
+            ctr0 = execute(obs, clean, root)
+            obs_ks, info = ctr0["ks"], dict(chunk=ctr0["chunk"], sizes=ctr0["sizes"])
         except Exception as e:
             # the property promises nothing for this run by itself -- but it must then fail in the dirty directory too
             chk.reject("observed-run-fails-in-clean-dir:" + type(e).__name__)
-            clean_err, obs_ks = f"{type(e).__name__}: {e}"[:200], []
+            clean_err, obs_ks, info = f"{type(e).__name__}: {e}"[:200], [], getattr(e, "c09_sizes", None)
+            clean_exc = e
+        wrote_clean = sorted(n for n in snapshot(clean) if n not in declared)
         # the model refuses exactly the calls the real code refuses with a ValueError before writing anything
-        refused_real = clean_err is not None and clean_err.startswith("ValueError") and not snapshot(clean)
-        if model_refuses(obs, obs_ks) != refused_real:
+        refused_real = clean_err is not None and clean_err.startswith("ValueError") and not wrote_clean
+        if not obs.get("score_extra") and model_refuses(obs, obs_ks) != refused_real:
             chk.corr_break("fsprogx-accepts", dict(case=case, model_refuses=not refused_real, impl_error=clean_err,
-                                                   impl_wrote=sorted(snapshot(clean))))
+                                                   impl_wrote=wrote_clean))
+        # the sized model (chunk counts computed in Lean from the table and score lengths): same refusals, for the
+        # same reason; when it says that more chunk files are merged than written, the clean run must miss a file
+        sized = model_sized(obs, info) if info else None
+        if sized is not None:
+            rv = real_verdict(clean_err, wrote_clean)
+            chk.count("sized_model", f"{sized['verdict']} fit={sized['fit']} real={rv}")
+            ok = (sized["verdict"] == rv) if (sized["verdict"] != "ok" or rv.startswith("reject")) else True
+            if ok and sized["verdict"] == "ok":
+                ok = sized["fit"] and (sized["counts"] == [(k, k) for k in obs_ks] if obs_ks else True)
+            if ok and sized["verdict"] == "reject-scores":
+                ok = not sized["fit"]
+            if not ok:
+                chk.corr_break("fssized-accepts", dict(case=case, model=sized, impl_error=clean_err,
+                                                       impl_wrote=wrote_clean))
+            elif sized["verdict"] == "reject-scores":
+                # the refusal itself: what the real run did up to its ValueError (per-file life cycle, files left in
+                # the clean directory) is what the Lean model `runOpsChecked` says: result files initialised, the
+                # chunk files written and removed again, nothing merged
+                ext = "." + obs["fmt"]
+                _, ids = prefix_ids(run_prefixes(obs))
+                canon = lambda f: canon_name_x(f, ext, run_levels(obs), ids)    # noqa: E731
+                rr = common.driver_batch([req("fssizedrefused", *sized_args(obs, info)),
+                                          req("fslistrefused", *sized_args(obs, info),
+                                              [[Atom(a), i] for a, i in sorted({canon(f) for f in declared})])])
+                completed, ops_model = dec(rr[0])
+                one_piece = {("level", run_nl(obs))} if obs.get("proteins") else set()
+                real_lc = life_cycles_real(getattr(clean_exc, "c09_ops", []), canon, one_piece)
+                model_lc = life_cycles_model(enc_ops(ops_model))
+                real_after = sorted({canon(f) for f in snapshot(clean) if not canon(f)[0].startswith("other")})
+                model_after = sorted((it[0], int(it[1])) for it in dec(rr[1]))
+                if completed != "F" or real_lc != model_lc or real_after != model_after:
+                    chk.corr_break("fssizedrefused", dict(
+                        case=case, completed=completed,
+                        differing_files={str(n): (real_lc.get(n), model_lc.get(n)) for n in set(real_lc) | set(model_lc)
+                                         if real_lc.get(n) != model_lc.get(n)},
+                        only_model=[x for x in model_after if x not in real_after][:20],
+                        only_impl=[x for x in real_after if x not in model_after][:20]))
         if clean_err is not None and (enumerate_all or not (case["stale"] or case["history"])):
             return
         ref = snapshot(clean)
+        if obs.get("append") and clean_err is None:
+            # independent reading of "append": every result file = what was there + the rows the same call writes
+            # into a fresh directory without the option (its header line dropped)
+            pfs = [pf for pf in run_prefixes(obs) if pf]
+            if len(pfs) == len(set(pfs)):
+                plain = root / "plain"; plain.mkdir()
+                try:
+                    execute(dict(obs, append=False), plain, root)
+                    fresh = snapshot(plain)
+                    for nm in result_names(obs):
+                        want = declared.get(nm, b"") + fresh.get(nm, b"\n").split(b"\n", 1)[1]
+                        if ref.get(nm) != want:
+                            chk.spec_violation("append:result-file-is-not-existing-content-plus-new-rows",
+                                               dict(case=case, clause=f"append_to_output_file=True: {nm} is not its "
+                                                    "earlier content followed by the rows of this run",
+                                                    got=ref.get(nm, b"<absent>")[:300].decode(errors="replace"),
+                                                    expected=want[:300].decode(errors="replace")))
+                            return
+                except Exception as e:
+                    chk.reject("append-reference-run-failed:" + type(e).__name__)
         # total operation counts of the history runs (to place the crash point)
         plans = []
         for h, frac in zip(case["history"], case["crash_fracs"]):
@@ -321,9 +491,12 @@ def run_case(chk, case, enumerate_all=False):
             if clean_err is not None:    # leftovers a run could read without failing: well-formed level files
                 case = dict(case, stale=True, stale_kind="level")
             stale = stale_files(case, dirty) if case["stale"] else []
+            if obs.get("append"):        # the declared inputs are the same in both directories
+                plant_declared(obs, dirty)
             before = snapshot(dirty)
+            ops_dirty = []
             try:
-                execute(obs, dirty, root)
+                ops_dirty = execute(obs, dirty, root)["ops"]
                 after = snapshot(dirty)
                 err = None
             except Exception as e:
@@ -338,6 +511,10 @@ def run_case(chk, case, enumerate_all=False):
             chk.count("collections", len(run_prefixes(obs)))
             chk.count("prefix_plan", obs["extra"]["plan"] if obs.get("extra") else "single")
             chk.count("do_rollup", bool(obs.get("do_rollup", True)))
+            chk.count("append_to_output_file", bool(obs.get("append")))
+            chk.count("score_array", "as long as the table" if not obs.get("score_extra") else
+                      ("longer, chunk size divides the rows" if info and info["sizes"][0][0] % info["chunk"] == 0
+                       else "longer, last chunk partial"))
             if case["stale"]:
                 chk.count("stale_kind", case.get("stale_kind", "junk"))
             clause = None
@@ -378,17 +555,28 @@ def run_case(chk, case, enumerate_all=False):
                 canon = lambda f: canon_name_x(f, ext, run_levels(obs), ids)    # noqa: E731
                 known_before = sorted({canon(f) for f in before if not canon(f)[0].startswith("other")})
                 real_after = sorted({canon(f) for f in after if not canon(f)[0].startswith("other")})
-                resp = common.driver_batch([req("fslistx", *model_args(obs, obs_ks),
-                                                [[Atom(k), i] for k, i in known_before])])[0]
-                model_after = sorted((it[0], int(it[1])) for it in dec(resp)) if resp.strip().startswith("[") else resp
+                names_arg = [[Atom(k), i] for k, i in known_before]
+                reqs = [req("fslistx", *model_args(obs, obs_ks), names_arg)]
+                if info:
+                    reqs.append(req("fslistsized", *sized_args(obs, info), names_arg))
+                resps = common.driver_batch(reqs)
                 chk.count("listing_names_before", min(len(known_before) // 10 * 10, 100))
-                if model_after != real_after:
-                    chk.corr_break("fslistx", dict(case=case, crash_point=cp,
-                                                   only_model=[x for x in model_after if x not in real_after][:20],
-                                                   only_impl=[x for x in real_after if x not in model_after][:20]))
-                    return
+                for op, resp in zip(("fslistx", "fslistsized"), resps):
+                    model_after = sorted((it[0], int(it[1])) for it in dec(resp)) if resp.strip().startswith("[") else resp
+                    if model_after != real_after:
+                        chk.corr_break(op, dict(case=case, crash_point=cp,
+                                                only_model=[x for x in model_after if x not in real_after][:20],
+                                                only_impl=[x for x in real_after if x not in model_after][:20]))
+                        return
+            predicted = None
+            if clause and clean_err is not None and err is None and sized and not sized["fit"] \
+                    and sized["verdict"] in ("ok", "reject-scores"):
+                # more score chunks than table chunks and the run gets through next to leftovers: the behaviour
+                # before the repair of F4 (Lean: `assignOpsSizedOld`, `C09_short_table_rejected`)
+                predicted = "more-score-chunks-than-table-chunks"
             if clause:
-                sig, predicted = "leftovers:" + clause.split(":")[0][:40], model_predicts_dependence(obs, obs_ks)
+                sig = "leftovers:" + clause.split(":")[0][:40]
+                predicted = predicted or model_predicts_dependence(obs, obs_ks)
                 if predicted:        # the Lean model of the code as it is rejects this operation list (wellInit = F)
                     sig = "leftovers:" + predicted
                 chk.spec_violation(sig, dict(case=case, crash_point=cp, debris=[str(x) for x in debris_ops],
@@ -501,6 +689,11 @@ def life_cycles_real(labels, canon, one_piece=()):
     return real
 
 
+def enc_ops(ops):
+    """a decoded operation list back into the line format `life_cycles_model` reads"""
+    return "[" + " ".join("[" + " ".join(map(str, op)) + "]" for op in ops) + "]"
+
+
 def life_cycles_model(resp):
     model = {}
     for item in dec(resp):
@@ -525,7 +718,10 @@ def model_listing(chk, rng):
         run = make_run(rng, "trace")
         if it == 0:
             run = dict(run, proteins=True, do_rollup=True)      # every tier traces the protein level at least once
-        general = bool(run.get("extra")) or bool(run.get("proteins")) or not run.get("do_rollup", True)
+        if it == 1:
+            run = dict(run, append=True)                        # ... and the caller's append_to_output_file=True
+        general = bool(run.get("extra")) or bool(run.get("proteins")) or not run.get("do_rollup", True) \
+            or bool(run.get("append"))
         with P.workdir() as root:
             dest = root / "d"; dest.mkdir()
             try:
@@ -574,17 +770,24 @@ def model_listing(chk, rng):
             one_piece = {("level", nl)} if prot else set()
             realx = life_cycles_real(ctr["ops"], lambda f: canon_name_x(f, ext, levels, ids), one_piece)
             colls = [[i, k] for i, k in zip(pids, ctr["ks"])]
-            resp = common.driver_batch([req("fsprogx", prot, nl, run["decoys"], False, colls)])[0]
-            modelx = life_cycles_model(resp)
-            chk.case(None, ("fsprogx", prot, nl, run["decoys"], str(colls)),
-                     sample=dict(trace_files=len(realx), prot=prot, nl=nl, colls=str(colls)))
+            app = bool(run.get("append"))
+            resps = common.driver_batch([req("fsprogx", prot, nl, run["decoys"], app, colls),
+                                         req("fssized", *sized_args(run, ctr))])
+            modelx = life_cycles_model(resps[0])
+            chk.case(None, ("fsprogx", prot, nl, run["decoys"], app, str(colls)),
+                     sample=dict(trace_files=len(realx), prot=prot, nl=nl, colls=str(colls), append=app))
             chk.count("trace_x", f"prot={prot} nl={nl} colls={len(colls)} plan="
-                      + (run["extra"]["plan"] if run.get("extra") else "single"))
+                      + (run["extra"]["plan"] if run.get("extra") else "single") + (" append" if app else ""))
             if realx != modelx:
                 diff = {str(n): (realx.get(n), modelx.get(n)) for n in set(realx) | set(modelx)
                         if realx.get(n) != modelx.get(n)}
                 chk.corr_break("fsprogx", dict(run=run, prot=prot, nl=nl, colls=str(colls), differing_files=diff,
                                                ops=ctr["ops"][:80]))
+            # the same from the sizes alone (rows, scores, chunk size): the Lean model computes the chunk counts
+            models = life_cycles_model(resps[1]) if resps[1].strip().startswith("[") else resps[1]
+            if realx != models:
+                chk.corr_break("fssized", dict(run=run, sizes=ctr["sizes"], chunk=ctr["chunk"],
+                                               model=str(models)[:400], ops=ctr["ops"][:80]))
 
 
 def rollup_history_case(chk, rng):
@@ -734,6 +937,164 @@ def rollup_trace_case(chk, rng):
         if real != model:
             diff = {str(n): (real.get(n), model.get(n)) for n in set(real) | set(model) if real.get(n) != model.get(n)}
             chk.corr_break("fsrollup", dict(base=base, tags=tags, levels=levels, differing_files=diff, ops=ctr["ops"][:40]))
+
+
+SQL_TABLES = ("CANDIDATE", "PEPTIDE_VALIDATION", "MODIFIED_PEPTIDE_VALIDATION")
+
+
+def make_result_db(path, spec_ids):
+    """a result database as `sqlite_path=` expects it: the tables exist, one CANDIDATE row per PSM; it is an input of
+    the run too (the rows that are there stay), so one earlier row is put into a level table"""
+    import sqlite3
+
+    con = sqlite3.connect(path)
+    con.execute("CREATE TABLE CANDIDATE (CANDIDATE_ID TEXT PRIMARY KEY, PSM_FDR REAL, SVM_SCORE REAL, "
+                "POSTERIOR_ERROR_PROBABILITY REAL)")
+    con.execute("CREATE TABLE PEPTIDE_VALIDATION (PEPTIDE_ID TEXT, FDR REAL, PEP REAL, SVM_SCORE REAL)")
+    con.execute("CREATE TABLE MODIFIED_PEPTIDE_VALIDATION (MODIFIED_PEPTIDE_ID TEXT, FDR REAL, PEP REAL, "
+                "SVM_SCORE REAL)")
+    con.executemany("INSERT INTO CANDIDATE (CANDIDATE_ID) VALUES(?)", [(str(i),) for i in spec_ids])
+    con.execute("INSERT INTO PEPTIDE_VALIDATION VALUES('EARLIER-ROW', 0.5, 0.25, 1.0)")
+    con.commit(); con.close()
+
+
+def dump_result_db(path):
+    import sqlite3
+
+    con = sqlite3.connect(path)
+    try:
+        return {t: sorted(map(repr, con.execute(f"SELECT * FROM {t}").fetchall())) for t in SQL_TABLES}
+    finally:
+        con.close()
+
+
+@contextlib.contextmanager
+def trace_sqlite(counter):
+    """record the statements sent to the result database as one more traced file operation"""
+    cw = P.mod("mokapot.confidence_writer")
+    orig = cw.ConfidenceSqliteWriter.append_data
+
+    def m(self, data):
+        counter["ops"].append(f"ConfidenceSqliteWriter.append_data:{Path(str(self.file_name)).name}")
+        return orig(self, data)
+    cw.ConfidenceSqliteWriter.append_data = m
+    try:
+        yield counter
+    finally:
+        cw.ConfidenceSqliteWriter.append_data = orig
+
+
+def sqlite_case(chk, rng):
+    """assign_confidence(sqlite_path=...): the results go to a database, the text result files the run has
+    initialised are unlinked again.  Dirty vs clean destination (same database in both): (a) the database afterwards
+    is the same, (b) no chunk, level or result file of the run remains, other files are untouched, (c) per-file life
+    cycle and final listing vs the Lean operation list `fssql` / `fslistsql`"""
+    import random
+
+    opts = dict(decoys=rng.random() < 0.6, prefix=rng.choice([None, None, "a"]), cconf=rng.choice([3, 5, 8, 1000]),
+                levels=[c for c in ("ModifiedPeptide",) if rng.random() < 0.4], n_spectra=rng.choice([12, 20]),
+                seed=rng.randrange(1 << 30), stale_kind=rng.choice(["junk", "level"]), crash=rng.randint(1, 14))
+    hist = make_run(rng, "sqh")
+    df = mkdata.make_psm_table(random.Random(opts["seed"]), n_spectra=opts["n_spectra"], max_per_spectrum=2, n_feat=2,
+                               label_enc="pm1", optional=("ExpMass",), level_cols=tuple(opts["levels"]), signal=3.0)
+    level_names = ["psms", "peptides"] + [P.LEVEL_FILE[c] for c in opts["levels"]]
+    pre = f"{opts['prefix']}." if opts["prefix"] else ""
+    k = -(-len(df) // opts["cconf"])
+    own = [f"{pre}scores_metadata_{i}.pin" for i in range(k)] + [f"{ln}.pin" for ln in level_names] + \
+        [f"{pre}{td}.{ln}" for ln in level_names for td in (("targets", "decoys") if opts["decoys"] else ("targets",))]
+
+    def one(name, root, dirtied):
+        base = root / name; base.mkdir(); dest = base / "out"; dest.mkdir()
+        db = base / "r.db"
+        make_result_db(db, df["SpecId"])
+        if dirtied:
+            try:
+                execute(hist, dest, root, crash=opts["crash"])      # an earlier (text) run, interrupted
+            except Exception:
+                pass
+            obs_like = dict(prefix=opts["prefix"], extra=None, fmt="pin", levels=opts["levels"])
+            stale_files(dict(observed=obs_like, stale_kind=opts["stale_kind"]), dest)
+            (dest / "keep.txt").write_text("not a file of mokapot\n")
+        before = snapshot(dest)
+        ds = mkdata.read_dataset(mkdata.write_table(df, base / "in.pin"))
+        err, ctr = None, {"n": 0, "ops": []}
+        try:
+            with P.chunk_sizes(confidence=opts["cconf"]), P.pep_kernel(stub=True), crash_at(None) as c2, \
+                    trace_sqlite(c2):
+                ctr = c2
+                P.run_assign_confidence([ds], [df["feat0"].values.astype(float)], dest, prefixes=[opts["prefix"]],
+                                        decoys=opts["decoys"], sqlite_path=db)
+        except Exception as e:
+            err = f"{type(e).__name__}: {e}"[:200]
+        return dict(before=before, after=snapshot(dest), db=dump_result_db(db), err=err, ops=ctr["ops"])
+
+    with P.workdir() as root:
+        clean = one("clean", root, False)
+        dirty = one("dirty", root, True)
+    chk.case(None, ("sqlite", json.dumps(opts, sort_keys=True), json.dumps(hist, sort_keys=True)),
+             sample=dict(sqlite=True, **{k_: str(v) for k_, v in opts.items()}))
+    chk.count("sqlite", f"decoys={opts['decoys']} prefix={bool(opts['prefix'])} levels={len(level_names)} chunks={k}")
+    info = dict(opts=opts, history=hist)
+    if clean["err"]:
+        chk.reject("sqlite-run-fails-in-clean-dir:" + clean["err"].split(":")[0])
+        if dirty["err"] is None:
+            chk.spec_violation("sqlite-succeeds-only-with-leftovers",
+                               dict(clause=f"the database run fails in a clean destination ({clean['err']}) but "
+                                           "succeeds next to leftovers", **info))
+        return
+    if dirty["err"]:
+        chk.spec_violation("sqlite-fails-in-dirty-dir",
+                           dict(clause=f"the database run succeeds in a clean destination but fails next to "
+                                       f"leftovers: {dirty['err']}", **info))
+        return
+    if dirty["db"] != clean["db"]:
+        t = [t for t in SQL_TABLES if dirty["db"][t] != clean["db"][t]][0]
+        chk.spec_violation("sqlite-leftovers",
+                           dict(clause=f"table {t} of the result database differs between the dirty and the clean "
+                                       "destination directory", dirty=dirty["db"][t][:5], clean=clean["db"][t][:5], **info))
+        return
+    if not any("EARLIER-ROW" in r for r in clean["db"]["PEPTIDE_VALIDATION"]) or \
+            len(clean["db"]["PEPTIDE_VALIDATION"]) < 2:
+        chk.spec_violation("sqlite-database-not-updated",
+                           dict(clause="the result database lost its earlier rows or got no new ones", **info))
+        return
+    for which, res in (("clean", clean), ("dirty", dirty)):
+        left = sorted(n for n in res["after"] if n in own)
+        if left:
+            chk.spec_violation("sqlite-files-of-the-run-remain",
+                               dict(clause=f"({which} destination) files of the run remain after a successful run "
+                                           f"with a result database: {left}", **info))
+            return
+        changed = sorted(n for n in res["before"] if n not in own and res["after"].get(n) != res["before"][n]) + \
+            sorted(n for n in res["after"] if n not in res["before"])
+        if changed:
+            chk.spec_violation("sqlite-other-files-changed",
+                               dict(clause=f"({which} destination) files that are not the run's own were changed or "
+                                           f"appeared: {changed}", **info))
+            return
+    # correspondence with the Lean operation list of the database run
+    ids = {opts["prefix"]: 0} if opts["prefix"] else {}
+    pid = 0 if opts["prefix"] else Atom("none")
+
+    def canon(f):
+        return ("other", 0) if f == "r.db" else canon_name_x(f, ".pin", level_names, ids)
+    resp = common.driver_batch([req("fssql", len(level_names), opts["decoys"], pid, k)])[0]
+    model = life_cycles_model(resp)
+    for which, res in (("clean", clean), ("dirty", dirty)):
+        real = life_cycles_real(res["ops"], canon)
+        if real != model:
+            diff = {str(n): (real.get(n), model.get(n)) for n in set(real) | set(model) if real.get(n) != model.get(n)}
+            chk.corr_break("fssql", dict(which=which, differing_files=diff, ops=res["ops"][:60], **info))
+            return
+        known_before = sorted({canon(f) for f in res["before"] if not canon(f)[0].startswith("other")})
+        real_after = sorted({canon(f) for f in res["after"] if not canon(f)[0].startswith("other")} | {("other", 0)})
+        r2 = common.driver_batch([req("fslistsql", len(level_names), opts["decoys"], pid, k,
+                                      [[Atom(a), i] for a, i in known_before])])[0]
+        model_after = sorted((it[0], int(it[1])) for it in dec(r2))
+        if model_after != real_after:
+            chk.corr_break("fslistsql", dict(which=which, only_model=[x for x in model_after if x not in real_after],
+                                             only_impl=[x for x in real_after if x not in model_after], **info))
+            return
 
 
 @contextlib.contextmanager
@@ -956,10 +1317,15 @@ def search(chk):
             return
     for _ in range(2):
         cli_main_case(chk, chk.rng)
+    for _ in range(4):
+        sqlite_case(chk, chk.rng)
+        if chk.spec_violations:
+            return
 
 
 def main(chk, args):
-    build = common.build_and_audit("C09")
+    build = common.build_and_audit("C09", extra_targets=["MokapotVerif.Mutants.FsRun", "MokapotVerif.Mutants.FsRunExt",
+                                                         "MokapotVerif.Mutants.FsRunSized"])
     if not build.driver_ok:
         chk.finish(build, RULE)
     model_listing(chk, chk.rng)
@@ -981,6 +1347,8 @@ def main(chk, args):
         rollup_trace_case(chk, chk.rng)
     for i in range(chk.scale(3 if chk.tier == "quick" else 8)):
         cli_main_case(chk, chk.rng, CLI_SHAPES[i % 3] if i < 3 else None)
+    for _ in range(chk.scale(2 if chk.tier == "quick" else 16)):
+        sqlite_case(chk, chk.rng)
     lc = common.leanchecker("C09") if chk.tier == "thorough" else None
     chk.assumptions += [
         "PARTIAL: the theorems are about an abstract file system (name -> content map with truncate/append/unlink/"
@@ -991,6 +1359,10 @@ def main(chk, args):
         "extension: file names are abstract (prefix ids, level positions): a user file that carries the name of an "
         "intermediate of the run (an input called psms.pin inside the destination directory) is outside the model; "
         "the roll-up tool is modelled with source = destination directory; brew is taken to write no file",
+        "second pass: the result database of sqlite_path= is one abstract file that is only appended to (UPDATE / "
+        "INSERT on existing tables); it is a declared input of the run like result files under "
+        "append_to_output_file=True; journal files and rows left in it by an interrupted database run are not "
+        "modelled; with a database the harness drives single collections only",
     ]
     chk.finish(build, RULE, search=search, lc=lc,
                trusted_extra=["tools/gen_repo.py (AST walk -> Generated/FileOps.lean)", "POSIX file semantics"])
